@@ -404,6 +404,9 @@ func (env *SpecEnv) lookupIdent(name string) (SV, bool, error) {
 			return sv, true, nil
 		}
 		// package name?
+		if env.fn.Pkg.Pkg.Name() == name && strings.HasPrefix(env.fn.Pkg.Pkg.Path(), "github.com/yandex/mysync") {
+			return SV{pkg: env.fn.Pkg.Pkg}, true, nil
+		}
 		var found *types.Package
 		for _, imp := range env.fn.Pkg.Pkg.Imports() {
 			if imp.Name() == name || strings.HasSuffix(imp.Path(), "/"+name) {
